@@ -563,3 +563,113 @@ Example ex_early_partial :
   view 2 (exec_fault (init_fs (cfg_clean Repack)) ex_bad_early 3 Kill (POut 0))
   = VPartial.
 Proof. vm_compute. reflexivity. Qed.
+
+(* ------------------------------------------------------------------ *)
+(* the protocol as a grammar: every word                                *)
+(*   Unlink out? ; Unlink tmp? ; create ; Write^w0 ; Close ;            *)
+(*   (OpenAppend ; Write^w ; Close)^* ; Rename                          *)
+(* with arbitrary repetition counts is accepted (so the theorems above  *)
+(* apply to it for all parameters)                                      *)
+(* ------------------------------------------------------------------ *)
+Lemma run_writes : forall c ps i w,
+    ps i = PW -> exists ps', run c ps (writes i w) = Some ps' /\ ps' i = PW.
+Proof.
+  intros c ps i w; revert ps; induction w as [|w IH]; simpl; intros ps H.
+  - eauto.
+  - unfold step; simpl. rewrite H. simpl. apply IH.
+    unfold pupd. rewrite Nat.eqb_refl. reflexivity.
+Qed.
+
+Lemma run_round : forall c ps i w,
+    ps i = PC -> exists ps', run c ps (round i w) = Some ps' /\ ps' i = PC.
+Proof.
+  intros c ps i w H. unfold round.
+  change (OpenAppend (PTmp i) :: writes i w ++ [Close (PTmp i)])
+    with ([OpenAppend (PTmp i)] ++ writes i w ++ [Close (PTmp i)]).
+  rewrite run_app. simpl. unfold step at 1; simpl. rewrite H; simpl.
+  rewrite run_app.
+  destruct (run_writes c (pupd ps i PW) i w) as (ps1 & Hr & H1).
+  { unfold pupd. rewrite Nat.eqb_refl. reflexivity. }
+  rewrite Hr. simpl. unfold step; simpl. rewrite H1; simpl.
+  eexists; split; eauto. unfold pupd. rewrite Nat.eqb_refl. reflexivity.
+Qed.
+
+Lemma run_rounds : forall c rounds ps i,
+    ps i = PC ->
+    exists ps', run c ps (flat_map (round i) rounds) = Some ps' /\ ps' i = PC.
+Proof.
+  intros c; induction rounds as [|w r IH]; intros ps i H.
+  - simpl; eauto.
+  - cbn [flat_map]. rewrite run_app.
+    destruct (run_round c ps i w H) as (ps1 & Hr & H1).
+    rewrite Hr. apply IH; auto.
+Qed.
+
+Lemma forallb_app' : forall (A : Type) (f : A -> bool) a b,
+    forallb f (a ++ b) = forallb f a && forallb f b.
+Proof. intros; apply forallb_app. Qed.
+
+Lemma idx_writes : forall w, forallb (op_index_lt 1) (writes 0 w) = true.
+Proof. induction w; simpl; auto. Qed.
+
+Lemma idx_rounds : forall rounds,
+    forallb (op_index_lt 1) (flat_map (round 0) rounds) = true.
+Proof.
+  induction rounds as [|w r IH]; [reflexivity|].
+  cbn [flat_map]. rewrite forallb_app, IH. unfold round.
+  cbn [forallb]. rewrite forallb_app, idx_writes. reflexivity.
+Qed.
+
+Theorem file_word_accepted :
+  forall tk so st trunc w0 rounds,
+    accepts (cfg1 tk so st) 1 (file_word so st trunc w0 rounds) = true.
+Proof.
+  intros tk so st trunc w0 rounds. unfold accepts.
+  assert (Hm : (multi_output (c_task (cfg1 tk so st)) || Nat.eqb 1 1) = true)
+    by (rewrite orb_true_r; reflexivity).
+  rewrite Hm. simpl andb.
+  assert (Hidx : forallb (op_index_lt 1) (file_word so st trunc w0 rounds)
+                 = true).
+  { unfold file_word. rewrite forallb_app, forallb_app, idx_writes.
+    simpl forallb at 2. rewrite forallb_app, idx_rounds.
+    destruct so, st, trunc; reflexivity. }
+  rewrite Hidx. simpl andb.
+  (* run through setup and creation: the temporary file is open *)
+  assert (Hpre : exists ps1,
+             run (cfg1 tk so st) ps0 (setup_create so st trunc) = Some ps1
+             /\ ps1 0 = PW).
+  { destruct so, st, trunc; simpl; unfold step; simpl;
+      eexists; split; reflexivity. }
+  destruct Hpre as (ps1 & Hr1 & H1).
+  unfold file_word.
+  rewrite run_app, Hr1, run_app.
+  destruct (run_writes (cfg1 tk so st) ps1 0 w0 H1) as (ps2 & Hr2 & H2).
+  rewrite Hr2.
+  simpl run. unfold step at 1; simpl. rewrite H2; simpl.
+  rewrite run_app.
+  destruct (run_rounds (cfg1 tk so st) rounds (pupd ps2 0 PC) 0)
+    as (ps3 & Hr3 & H3).
+  { reflexivity. }
+  rewrite Hr3. simpl. unfold step; simpl. rewrite H3; simpl. reflexivity.
+Qed.
+
+(* hence: whatever the number of writes and append rounds, a fault at any
+   point of such a run leaves the output path absent, old-complete or
+   new-complete *)
+Corollary file_word_safe :
+  forall tk so st trunc w0 rounds k f,
+    let c := cfg1 tk so st in
+    let t := file_word so st trunc w0 rounds in
+    let s := exec_fault (init_fs c) t k f in
+    view (wcount 0 t) (s (POut 0)) = VAbsent
+    \/ view (wcount 0 t) (s (POut 0)) = VComplete.
+Proof.
+  intros tk so st trunc w0 rounds k f c t s.
+  assert (Hi : init_ok c (init_fs c)).
+  { unfold c; repeat split; simpl; auto.
+    intros _ E; rewrite E; reflexivity. }
+  destruct (no_partial_output c 1 t (init_fs c) k f
+              (file_word_accepted tk so st trunc w0 rounds) Hi)
+    as (_ & Hv & _).
+  apply Hv.
+Qed.
